@@ -12,7 +12,24 @@ def parseQuery : List String → Option Query
            name := ← Hex.decode name }
   | _ => none
 
-/-- `key <query>`: the model key. (`Gen.getMsgKey = Model.C04.msgKey` is
+/-- Events of a plugin chain: `S|H <cache> <query: 9 fields> <answer serial>`, twelve fields each. -/
+def parseEvents : List String → Option (List Model.C04.Ev)
+  | [] => some []
+  | k :: c :: r :: op :: nq :: ad :: cd :: d :: qt :: qc :: name :: v :: rest => do
+    let q ← parseQuery [r, op, nq, ad, cd, d, qt, qc, name]
+    let c ← c.toNat?
+    let v ← v.toNat?
+    let e ← (match k with
+      | "S" => some (Model.C04.Ev.store c ⟨q, []⟩ v)
+      | "H" => some (Model.C04.Ev.hit c ⟨q, []⟩ v)
+      | _ => none)
+    let es ← parseEvents rest
+    pure (e :: es)
+  | _ => none
+
+/-- `key <query>`: the model key; `chain <events>`: the observed store / hit events of
+one plugin chain with several cache plugins, run through the trace acceptor
+`Model.C04.accept` with the key of the question each `Exec` was handed. (`Gen.getMsgKey = Model.C04.msgKey` is
 `Refine.C04.getMsgKey_eq`, proved for every query, so the driver does not
 depend on the regenerated file.) -/
 def handle : List String → String
@@ -20,6 +37,13 @@ def handle : List String → String
     match parseQuery rest with
     | some q =>
       Hex.encode (Model.C04.msgKey q)
+    | none => "bad-op"
+  | "chain" :: rest =>
+    match parseEvents rest with
+    | some evs =>
+      match Model.C04.firstRejected (fun ctx => Model.C04.msgKey ctx.q) [] evs 0 with
+      | none => "accept"
+      | some i => s!"reject event {i}"
     | none => "bad-op"
   | _ => "bad-op"
 
